@@ -37,10 +37,17 @@ def find_chain(sk, yk, vis, check_y, ulps=0, end_at=None):
     keys = [vhex(v[0]) for v in vis]
     eps = np.finfo(float).eps
 
-    def same(a, b, d):
+    # rounding of a history rebuilt by subtraction from the checkpoint's x (finding K2) is relative to the largest
+    # magnitude the coordinate takes along the path, not to the end points of one pair
+    xs_all = np.array([np.abs(v[0]) for v in vis]).max(axis=0) if vis else 0.0
+    gs_l = [np.abs(v[1]) for v in vis if v[1] is not None]
+    gs_all = np.array(gs_l).max(axis=0) if gs_l else 0.0
+
+    def same(a, b, d, scale=None):
         if ulps == 0:
             return vhex(a - b) == vhex(d)
-        return bool((np.abs((a - b) - d) <= ulps * eps * np.maximum(np.abs(a), np.abs(b)) + 1e-300).all())
+        sc = np.maximum(np.abs(a), np.abs(b)) if scale is None else scale
+        return bool((np.abs((a - b) - d) <= ulps * eps * sc + 1e-300).all())
 
     def back(j, cur):
         if j < 0:
@@ -48,10 +55,10 @@ def find_chain(sk, yk, vis, check_y, ulps=0, end_at=None):
         for c in range(cur - 1, -1, -1):
             if keys[c] == keys[cur]:
                 continue
-            if not same(vis[cur][0], vis[c][0], sk[j]):
+            if not same(vis[cur][0], vis[c][0], sk[j], xs_all if ulps else None):
                 continue
             if check_y and (vis[cur][1] is None or vis[c][1] is None
-                            or not same(vis[cur][1], vis[c][1], yk[j])):
+                            or not same(vis[cur][1], vis[c][1], yk[j], gs_all if ulps else None)):
                 continue
             if back(j - 1, c):
                 return True
